@@ -34,6 +34,22 @@ type negLoop struct { // -1 - i
 	name string
 }
 
+// wideIdx is an index that reaches the access through a function of a 64-bit
+// or unsigned type: idx64 (i64), idxu32 (u32), idxu64 (u64). val is its
+// mathematical value (saturated at MaxInt64 for u64 values beyond it).
+type wideIdx struct {
+	fn  string
+	lit string
+	val int64
+}
+
+// varRef reads a scalar variable declared by declVar.
+type varRef struct{ name string }
+
+func (w wideIdx) src() string        { return w.fn + "(" + w.lit + ")" }
+func (w wideIdx) eval(*env) int64    { return w.val }
+func (v varRef) src() string         { return v.name }
+func (v varRef) eval(e *env) int64   { return e.vars[v.name] }
 func (l lit) src() string            { return strconv.FormatInt(int64(l), 10) }
 func (l lit) eval(*env) int64        { return int64(l) }
 func (c cst) src() string            { return c.name }
@@ -77,6 +93,18 @@ type reassignStmt struct {
 	tag  string
 	arr  string
 	vals []value
+}
+
+// declVar / setVar: an i32 variable used as an index (a compile-time constant
+// until something assigns it on one path only).
+type declVar struct {
+	name string
+	v    int64
+}
+type setVar struct {
+	tag  string
+	name string
+	v    int64
 }
 type ifStmt struct {
 	arr  string
@@ -192,6 +220,16 @@ func (s assignStmt) run(e *env) bool {
 	e.arrs[s.arr][p] = s.v.out
 	return true
 }
+
+func (s declVar) emit(b *strings.Builder, ind string) {
+	fmt.Fprintf(b, "%slet %s: i32 = %d;\n", ind, s.name, s.v)
+}
+func (s declVar) run(e *env) bool { e.vars[s.name] = s.v; return true }
+
+func (s setVar) emit(b *strings.Builder, ind string) {
+	fmt.Fprintf(b, "%sio::Println(\"%s\");\n%s%s = %d;\n", ind, s.tag, ind, s.name, s.v)
+}
+func (s setVar) run(e *env) bool { e.println(s.tag); e.vars[s.name] = s.v; return true }
 
 func (s reassignStmt) emit(b *strings.Builder, ind string) {
 	var vs []string
@@ -375,7 +413,7 @@ func (g *gen) val(typ string) value {
 func (g *gen) index(v int64, x string, loop string) expr {
 	r := g.r
 	n := int64(g.e.length(x))
-	switch r.Intn(6) {
+	switch r.Intn(7) {
 	case 0:
 		return opaque{lit(v)}
 	case 1:
@@ -399,8 +437,49 @@ func (g *gen) index(v int64, x string, loop string) expr {
 		return lit(v)
 	case 3:
 		return opaque{opaque{lit(v)}}
+	case 4:
+		// the same value through an i64, u32 or u64 function
+		fn := "idx64"
+		if v >= 0 {
+			fn = core.Pick(r, []string{"idx64", "idxu32", "idxu64"})
+		}
+		return wideIdx{fn, strconv.FormatInt(v, 10), v}
 	default:
 		return lit(v)
+	}
+}
+
+// invalidWide draws an out-of-range index of a 64-bit or unsigned type whose
+// low 32 bits, read as an i32, are a VALID index of x when x is not empty.
+func (g *gen) invalidWide(x string) expr {
+	r := g.r
+	n := int64(g.e.length(x))
+	p := int64(0) // a valid position (or 0)
+	if n > 0 {
+		p = int64(r.Intn(int(n)))
+	}
+	switch r.Intn(7) {
+	case 0:
+		v := int64(1)<<32 + p
+		return wideIdx{"idx64", strconv.FormatInt(v, 10), v}
+	case 1:
+		v := -(int64(1) << 32) + p
+		return wideIdx{"idx64", strconv.FormatInt(v, 10), v}
+	case 2:
+		v := int64(1)<<32 - 1 - p // low half = -1 - p
+		return wideIdx{"idx64", strconv.FormatInt(v, 10), v}
+	case 3:
+		v := int64(1)<<32 - 1 - p
+		return wideIdx{"idxu32", strconv.FormatInt(v, 10), v}
+	case 4:
+		v := int64(1)<<32 + p
+		return wideIdx{"idxu64", strconv.FormatInt(v, 10), v}
+	case 5:
+		u := ^uint64(0) - uint64(p) // 2^64 - 1 - p: -1 - p as a signed value
+		return wideIdx{"idxu64", strconv.FormatUint(u, 10), 1<<63 - 1}
+	default:
+		v := int64(1)<<62 + p
+		return wideIdx{"idx64", strconv.FormatInt(v, 10), v}
 	}
 }
 
@@ -507,12 +586,18 @@ func GenerateFor(r *core.Rng, maxOps int, wantOOB bool, target string) *Program 
 			i := g.invalidIndex(x)
 			_, isArr := g.e.arrs[x]
 			var s stmt
+			ie := g.index(i, x, "")
+			wide := ""
+			if r.Chance(1, 4) {
+				ie = g.invalidWide(x)
+				wide = "-wide"
+			}
 			if isArr && r.Chance(1, 3) {
-				s = assignStmt{g.tag(), x, g.index(i, x, ""), g.val(g.types[x])}
-				g.shape = append(g.shape, "oob-write")
+				s = assignStmt{g.tag(), x, ie, g.val(g.types[x])}
+				g.shape = append(g.shape, "oob-write"+wide)
 			} else {
-				s = printIdx{g.tag(), x, g.index(i, x, "")}
-				g.shape = append(g.shape, "oob-read")
+				s = printIdx{g.tag(), x, ie}
+				g.shape = append(g.shape, "oob-read"+wide)
 			}
 			if r.Chance(1, 4) && len(arrs) > 0 {
 				a := core.Pick(r, arrs)
@@ -555,7 +640,7 @@ func GenerateFor(r *core.Rng, maxOps int, wantOOB bool, target string) *Program 
 		case x < 77:
 			run(printLen{g.tag(), core.Pick(r, all)})
 			g.shape = append(g.shape, "len")
-		case x < 82: // re-assign the variable from a fresh literal (a new, usually shorter, length)
+		case x < 81: // re-assign the variable from a fresh literal (a new, usually shorter, length)
 			a := core.Pick(r, arrs)
 			n := r.Range(1, 4)
 			st := reassignStmt{tag: g.tag(), arr: a}
@@ -565,6 +650,78 @@ func GenerateFor(r *core.Rng, maxOps int, wantOOB bool, target string) *Program 
 			g.litLen[a] = n
 			run(st)
 			g.shape = append(g.shape, "reassign")
+		case x < 85: // a literal re-assignment on one path only, then a read that is valid for what really happened
+			a := core.Pick(r, arrs)
+			n := int64(g.e.length(a))
+			mkLit := func(k int) reassignStmt {
+				st := reassignStmt{tag: g.tag(), arr: a}
+				for j := 0; j < k; j++ {
+					st.vals = append(st.vals, g.val(g.types[a]))
+				}
+				return st
+			}
+			s := ifStmt{arr: a, op: core.Pick(r, []string{">", "==", "<"}), c: n + int64(r.Intn(3)) - 1}
+			long, short := mkLit(r.Range(3, 6)), mkLit(r.Range(1, 2))
+			switch r.Intn(4) {
+			case 0: // the path not taken shrinks the array
+				if s.cond(g.e) {
+					s.then, s.els = []stmt{tagStmt{g.tag()}}, []stmt{short}
+				} else {
+					s.then, s.els = []stmt{short}, []stmt{tagStmt{g.tag()}}
+				}
+			case 1: // the path taken grows it, the other one shrinks it
+				if s.cond(g.e) {
+					s.then, s.els = []stmt{long}, []stmt{short}
+				} else {
+					s.then, s.els = []stmt{short}, []stmt{long}
+				}
+			case 2: // the path taken grows it, the other does nothing
+				if s.cond(g.e) {
+					s.then, s.els = []stmt{long}, []stmt{tagStmt{g.tag()}}
+				} else {
+					s.then, s.els = []stmt{tagStmt{g.tag()}}, []stmt{long}
+				}
+			default: // both shrink: the read after it must still be checked at run time
+				s.then, s.els = []stmt{mkLit(r.Range(1, 2))}, []stmt{short}
+			}
+			run(s)
+			g.litLen[a] = g.e.length(a)
+			if g.e.length(a) > 0 {
+				run(printIdx{g.tag(), a, g.index(int64(g.e.length(a))-1, a, "")})
+				run(printIdx{g.tag(), a, lit(-int64(g.e.length(a)))})
+			}
+			g.shape = append(g.shape, "if-reassign")
+		case x < 88: // an index variable that is a constant until one path assigns it
+			a := core.Pick(r, arrs)
+			n := int64(g.e.length(a))
+			if n == 0 {
+				continue
+			}
+			loopN++
+			kv := fmt.Sprintf("k%d", loopN)
+			run(declVar{kv, int64(r.Intn(int(n)))})
+			s := ifStmt{arr: a, op: core.Pick(r, []string{">", "==", "<"}), c: n + int64(r.Intn(3)) - 1}
+			good := setVar{g.tag(), kv, g.validIndex(a)}
+			bad := setVar{g.tag(), kv, n + int64(r.Intn(4))}
+			if r.Chance(1, 2) {
+				bad.v = -n - 1 - int64(r.Intn(3))
+			}
+			other := []stmt{bad}
+			if r.Chance(1, 3) {
+				other = []stmt{tagStmt{g.tag()}}
+			}
+			if s.cond(g.e) {
+				s.then, s.els = []stmt{good}, other
+			} else {
+				s.then, s.els = other, []stmt{good}
+			}
+			run(s)
+			run(printIdx{g.tag(), a, varRef{kv}})
+			if r.Chance(1, 2) {
+				run(assignStmt{g.tag(), a, varRef{kv}, g.val(g.types[a])})
+				run(printIdx{g.tag(), a, varRef{kv}})
+			}
+			g.shape = append(g.shape, "if-index-var")
 		case x < 91: // branch on the current length
 			a := core.Pick(r, arrs)
 			n := int64(g.e.length(a))
@@ -595,7 +752,21 @@ func GenerateFor(r *core.Rng, maxOps int, wantOOB bool, target string) *Program 
 			v := fmt.Sprintf("i%d", loopN)
 			it := int64(r.Range(1, 6))
 			w := whileStmt{v: v, n: it}
-			switch r.Intn(5) {
+			switch r.Intn(6) {
+			case 5: // a read that only runs in a later iteration, after the re-assignment below it grew the array
+				L := int(n) + r.Range(1, 3)
+				st := reassignStmt{tag: g.tag(), arr: a}
+				for j := 0; j < L; j++ {
+					st.vals = append(st.vals, g.val(g.types[a]))
+				}
+				if it < 2 {
+					w.n = 2
+				}
+				w.body = []stmt{
+					ifStmt{a, ">", n, []stmt{printIdx{g.tag(), a, lit(int64(L) - 1)}, printIdx{g.tag(), a, lit(-int64(L))}}, []stmt{tagStmt{g.tag()}}},
+					st,
+				}
+				g.litLen[a] = L
 			case 3: // read a string byte by byte with the counter (and from the end)
 				if sv, ok := g.e.strs["s0"]; ok && len(sv) > 0 {
 					w.n = int64(len(sv))
@@ -675,13 +846,21 @@ func Build(top []stmt, consts []cst) *Program {
 		}
 	}
 	var b strings.Builder
-	b.WriteString("import \"std/io\";\n\nfn idx(n: i32) -> i32 {\n    return n;\n}\n\nfn main() {\n")
+	b.WriteString("import \"std/io\";\n\nfn idx(n: i32) -> i32 {\n    return n;\n}\n\n")
+	var body strings.Builder
+	for _, s := range top {
+		s.emit(&body, "    ")
+	}
+	for _, f := range [][2]string{{"idx64", "i64"}, {"idxu32", "u32"}, {"idxu64", "u64"}} {
+		if strings.Contains(body.String(), f[0]+"(") {
+			fmt.Fprintf(&b, "fn %s(n: %s) -> %s {\n    return n;\n}\n\n", f[0], f[1], f[1])
+		}
+	}
+	b.WriteString("fn main() {\n")
 	for _, c := range consts {
 		fmt.Fprintf(&b, "    const %s: i32 = %d;\n", c.name, c.val)
 	}
-	for _, s := range top {
-		s.emit(&b, "    ")
-	}
+	b.WriteString(body.String())
 	if !panicked {
 		b.WriteString("    io::Println(\"done\");\n")
 		e.println("done")
